@@ -1,15 +1,87 @@
+import json
 import vf
 
-SPEC = dict(
-    level="proof",
-    harness=dict(pkg_dir="index", run="TestVerifC23$", files=["index/zz_verif_c23_test.go"],
-                 n_quick=400, n_thorough=6000),
-    runner=dict(imports=["From ZV Require Import Lib.Base Model.Tenant."], case_type="c23case",
-                mismatch_fn="c23_mismatches"),
-    rule="TODO",
-    trusted_base=[],
-    assumptions=[],
-)
+IMPORTS = ["From ZV Require Import Lib.Base Model.Tenant."]
+RULE = ("shard level (package index): 1-5 repositories (tenant id 1..3 or none, optional tombstone, file tombstones, 0-2 "
+        "sub-repositories, repo id possibly 0) in one simple shard or one compound shard built by index.Merge; 8 cases per shard: "
+        "context in {system, none, tenant1..4 (tenant4 owns nothing)} x random query of depth <= 2 over {content/file substring, RepoSet, "
+        "RepoIDs, Repo, RepoRegexp, Meta, BranchesRepos, Const, And, Or, Not} x Search options x List field; 7/8 strict, 1/8 "
+        "non-strict. sharded level (package search): 2-6 repositories over simple (possibly split) and compound shards loaded into "
+        "the real shardedSearcher wrapped by typeRepoSearcher; queries incl. type:repo; Search aggregate compared with the model, "
+        "StreamSearch events and List checked by the oracle. non-trivial = the shard(s) hold a repository the caller may not see "
+        "and the search reaches the document loop / returns files.")
+TB = ["correspondence harnesses harness/overlay/index/zz_verif_c23_test.go, harness/overlay/search/zz_verif_c23s_test.go, "
+      "harness/overlay/search/zz_verif_shardgen_test.go (generators, brute-force reference evaluator of the query, canonicalisation, leak oracle)",
+      "the query is abstract in the model: scan bit (Stats.ShardsScanned), per-document match bits (brute-force reference evaluator) "
+      "and d.simplify's outcome are inputs of the model",
+      "strings are opaque identifiers; SubRepoMap iteration order modelled as list order (generated names are unique)",
+      "sharded level: the model is given every shard with the reference meaning of the original query (i.e. it assumes C18: "
+      "shard selection/rewrite do not change the union), files compared as a set ordered by file id"]
+
 
 def run(ctx):
-    return vf.standard_check(ctx, SPEC)
+    pid = ctx.pid
+    proofs = vf.coq_props(ctx, pid)
+    broken, failures = [], []
+    aok, aout = vf.audit()
+    if not aok:
+        proofs["ok"] = False
+        proofs["discharged"] = 0
+        broken.append("audit: " + aout[-800:])
+    if ctx.tier == "thorough" and proofs["ok"]:
+        cok, cout = vf.coqchk(pid)
+        proofs["coqchk"] = cout[-1500:]
+        if not cok:
+            proofs["ok"] = False
+            broken.append("coqchk rejects Props/%s.vo: %s" % (pid, cout[-800:]))
+    if not proofs["ok"]:
+        broken.append("proof obligations of Props/%s.v do not check: %s" % (pid, (proofs.get("broken_files") or proofs.get("nonstd_axioms") or proofs["log"][-800:])))
+
+    levels = [
+        dict(name="shard", pkg="index", run="TestVerifC23$", files=["index/zz_verif_c23_test.go"],
+             n=ctx.n(320, 6000), case_type="c23case", fn="c23_mismatches", out="out-shard.jsonl"),
+        dict(name="sharded", pkg="search", run="TestVerifC23S$",
+             files=["search/zz_verif_c23s_test.go", "search/zz_verif_shardgen_test.go"],
+             n=ctx.n(120, 2500), case_type="c23scase", fn="c23s_mismatches", out="out-sharded.jsonl"),
+    ]
+    allcases, evaluated, mism = [], 0, 0
+    for lv in levels:
+        hr = vf.go_harness(ctx, lv["pkg"], lv["run"], lv["files"], lv["n"],
+                           timeout=600 if ctx.tier == "quick" else 3000, out_name=lv["out"])
+        recs = hr["records"]
+        cases = [r for r in recs if r.get("kind") == "case"]
+        for r in recs:
+            if r.get("kind") == "oracle_fail":
+                failures.append(dict(key=r.get("key", "?"), what=r.get("what", ""), replay=r.get("replay")))
+        if hr["rc"] != 0:
+            broken.append("harness %s failed (rc=%d): %s" % (lv["run"], hr["rc"], hr["log"][-1500:]))
+        elif not cases:
+            broken.append("harness %s produced no cases" % lv["run"])
+        if cases:
+            ev = vf.coq_eval_cases(ctx, pid, IMPORTS, lv["case_type"], lv["fn"], [c["coq"] for c in cases],
+                                   shard=400, tag="_" + lv["name"])
+            if not ev["ok"]:
+                broken.append("model evaluation failed (%s): %s" % (lv["name"], ev["log"][-1500:]))
+            evaluated += ev["evaluated"]
+            mism += len(ev["bad"])
+            for i in ev["bad"][:10]:
+                broken.append("correspondence %s: model and implementation disagree on case %s" % (lv["fn"], json.dumps(cases[i].get("sample"), default=str)[:1500]))
+        for c in cases:
+            c["class"] = ["level=" + lv["name"]] + list(c.get("class") or [])
+        allcases += cases
+    cov = dict(
+        evaluations=len(allcases),
+        distinct_nontrivial=vf.distinct_nontrivial(allcases),
+        rule=RULE,
+        samples=[c.get("sample") for c in allcases[:2]] + [c.get("sample") for c in allcases[-1:]],
+        traces_validated_against_impl=evaluated,
+        correspondence_mismatches=mism,
+        oracle_failures=len(failures),
+        input_distribution=vf.histogram(allcases, "class"),
+        trusted_base=TB,
+    )
+    if proofs.get("coqchk"):
+        cov["coqchk"] = proofs["coqchk"]
+    return vf.finish(ctx, "proof", proofs, cov, failures=failures, broken=broken,
+                     assumptions=["strict enforcement mode is what tenant.enforceTenant() reads (SRC_TENANT_ENFORCEMENT_MODE=strict); "
+                                  "the tenant of a request is what tenanttype.GetTenant finds in the context"])
